@@ -4,6 +4,7 @@ import (
 	"bytes"
 	"fmt"
 	"sort"
+	"strings"
 
 	"verif/e1"
 	"verif/ref"
@@ -50,13 +51,24 @@ func injections(hist string) map[string][]byte {
 	if k := bytes.Index(tm, []byte{byte(ref.TLong), byte(ref.TVarchar), byte(ref.TTiny)}); k > 0 {
 		tm[k+3]-- // the length byte of the metadata block
 	}
+	// rows events for table ids that were never announced (among them ids whose
+	// low 24 bits are all ones: the server's "dummy" id is all ones in the WHOLE field)
+	unk := func(id uint64) []byte {
+		t := e1.T1(id)
+		return c.Event(hd(c.RowsType(ref.RowWrite)), c.BodyRows(ref.RowsEvent{Kind: ref.RowWrite, Table: t, Flags: 1,
+			Rows: []ref.RowChange{{After: ref.Image{ref.VInt(ref.TLong, 1, false), ref.VVarchar(20, []byte("x")), ref.VInt(ref.TTiny, 1, true)}}}}), 1000, false)
+	}
 	return map[string][]byte{
-		"badtablemap": c.Event(hd(ref.EvTableMap), tm, 1000, false),
-		"rowsquery":   c.Event(hd(ref.EvRowsQuery), ref.BodyRowsQuery("insert into t1 values (1)"), 1000, false),
-		"intvar":      c.Event(hd(ref.EvIntVar), ref.BodyIntVar(2, 77), 1000, false),
-		"rand":        c.Event(hd(ref.EvRand), ref.BodyRand(1, 2), 1000, false),
-		"truncated":   trunc,
-		"tiny":        {1, 2, 3},
+		"unknownid-a2":       unk(0xa2),
+		"unknownid-ffffff":   unk(0xffffff),
+		"unknownid-1ffffff":  unk(0x1ffffff),
+		"unknownid-allones4": unk(0xffffffff),
+		"badtablemap":        c.Event(hd(ref.EvTableMap), tm, 1000, false),
+		"rowsquery":          c.Event(hd(ref.EvRowsQuery), ref.BodyRowsQuery("insert into t1 values (1)"), 1000, false),
+		"intvar":             c.Event(hd(ref.EvIntVar), ref.BodyIntVar(2, 77), 1000, false),
+		"rand":               c.Event(hd(ref.EvRand), ref.BodyRand(1, 2), 1000, false),
+		"truncated":          trunc,
+		"tiny":               {1, 2, 3},
 	}
 }
 
@@ -145,6 +157,15 @@ func stopScenarios(hist string, full bool) []e1.Scenario {
 				}
 			}
 		}
+		// (b') the master stops talking in front of packet j (inside a transaction
+		// too) and the caller cancels when everything sent so far has been consumed
+		for j := 2; j < n; j++ {
+			sc := base(fmt.Sprintf("%s/%s/silent@%d+cancel", hist, pacing, j), hist, pacing)
+			a := att(simmaster.Plan{At: j, Kind: "silent", Final: "silent"})
+			a.Cancel = &e1.Trigger{Kind: "consumed", N: j - 1}
+			sc.Attempts = []e1.Attempt{a}
+			out = append(out, sc)
+		}
 		// (c) callback failures and bad events
 		for k := 0; k < ntx; k++ {
 			for _, fin := range []string{"silent", "eof"} {
@@ -165,15 +186,18 @@ func stopScenarios(hist string, full bool) []e1.Scenario {
 			sc.Attempts = []e1.Attempt{att(simmaster.Plan{At: -1, Final: "silent"})}
 			out = append(out, sc)
 		}
-		for _, name := range []string{"rowsquery", "intvar", "rand", "truncated", "tiny", "badtablemap"} {
+		for _, name := range []string{"rowsquery", "intvar", "rand", "truncated", "tiny", "badtablemap", "unknownid-a2", "unknownid-ffffff", "unknownid-1ffffff", "unknownid-allones4"} {
 			for at := 2; at < n; at++ {
 				if !full && name != "rowsquery" && name != "badtablemap" && at%4 != 2 {
 					continue
 				}
+				if strings.HasPrefix(name, "unknownid") && at != 4 && at != 6 {
+					continue // inside the first and the second transaction
+				}
 				sc := base(fmt.Sprintf("%s/%s/inject-%s@%d", hist, pacing, name, at), hist, pacing)
 				sc.Attempts = []e1.Attempt{att(simmaster.Plan{At: at, Kind: "inject", Inject: inj[name], Final: "silent"})}
 				out = append(out, sc)
-				if name == "badtablemap" {
+				if name == "badtablemap" || strings.HasPrefix(name, "unknownid") {
 					// ... and with the master ending the stream cleanly afterwards: an
 					// event the parser silently skipped must not turn into a clean end
 					sc := base(fmt.Sprintf("%s/%s/inject-%s@%d/eof", hist, pacing, name, at), hist, pacing)
@@ -333,6 +357,13 @@ func retryScenarios(hist string, full bool) []e1.Scenario {
 		}
 		// an attempt cancelled while its connection was being set up, then a clean one
 		out = append(out, setupCancelScenarios(hist, pacing, true)...)
+		// the stream starts with an empty file name (the master's first binlog) and is
+		// lost after some transactions: the kept position still has the empty name
+		for _, at := range []int{5, 9} {
+			if at < n {
+				add(fmt.Sprintf("empty-name/fin@%d", at), att(simmaster.Plan{At: at, Kind: "fin", Final: "silent"}), func(sc *e1.Scenario) { sc.StartFile = "" })
+			}
+		}
 		// two and three consecutive failed attempts: one representative per class
 		reps := func(at int) []e1.Attempt {
 			c := att(simmaster.Plan{At: -1, Final: "silent"})
@@ -543,6 +574,13 @@ func aliasJobs(thorough bool) []Job {
 		for _, mode := range []string{"ok", "scribble"} {
 			// values that share their leading part (same second, other fraction)
 			sc := base(fmt.Sprintf("H11/%s/%s", pacing, mode), "H11", pacing)
+			a := clean()
+			a.HandlerMode = mode
+			sc.Attempts = []e1.Attempt{a}
+			jobs = append(jobs, Job{Sc: sc, Bound: bound})
+		}
+		for _, mode := range []string{"ok", "scribble"} {
+			sc := base(fmt.Sprintf("H12/%s/%s", pacing, mode), "H12", pacing)
 			a := clean()
 			a.HandlerMode = mode
 			sc.Attempts = []e1.Attempt{a}
